@@ -20,12 +20,12 @@ type gcItem struct {
 
 type gcOp struct {
 	Op string `json:"op"`
-	It gcItem  `json:"it"`
+	It gcItem `json:"it"`
 	I  int    `json:"i"`
 }
 
 type gcCol struct {
-	Impl  string  `json:"impl"`
+	Impl  string   `json:"impl"`
 	Items []gcItem `json:"items"`
 }
 
@@ -35,25 +35,25 @@ type gcMember struct {
 }
 
 type gcObs struct {
-	S       string    `json:"s"`
-	N       int       `json:"n"`
+	S       string     `json:"s"`
+	N       int        `json:"n"`
 	Members []gcMember `json:"members"`
 }
 
 type gcEvent struct {
 	Ev   string `json:"ev"`
-	Pre  gcCol   `json:"pre"`
-	Op   gcOp    `json:"op"`
-	Post gcCol   `json:"post"`
+	Pre  gcCol  `json:"pre"`
+	Op   gcOp   `json:"op"`
+	Post gcCol  `json:"post"`
 	Ret  string `json:"ret"`
-	Obs  gcObs   `json:"obs"`
+	Obs  gcObs  `json:"obs"`
 }
 
 type gcCase struct {
 	Fam  string `json:"fam"`
 	Impl string `json:"impl"`
-	Hist []gcOp  `json:"hist"`
-	Op   gcOp    `json:"op"`
+	Hist []gcOp `json:"hist"`
+	Op   gcOp   `json:"op"`
 }
 
 var gcFields = map[string]defMap{
@@ -144,7 +144,7 @@ func colsMain(args []string) {
 	var alpha []gcOp
 	type st struct {
 		Impl string `json:"impl"`
-		Hist []gcOp  `json:"hist"`
+		Hist []gcOp `json:"hist"`
 	}
 	var states []st
 	tlcLines(*gen, func(tag string, js []byte) {
